@@ -484,6 +484,7 @@ def c02(rep, tier):
     token_positions_rule(F, M, lib)
     dangling_rule(rep, M, lib)
     recursion_depth_rule(rep)
+    unwritten_token_rule(rep, M, lib)
     # the generator reports errors at its current position; before the first visible node it is the initial one
     genf2 = lib.fn('Theo::gen')
     for e in walk_all_exprs(genf2['body']):
@@ -513,6 +514,90 @@ def c02(rep, tier):
                 else:
                     F.check(okm and okl, inst, 'message has literal text; location from %s' % why,
                             'malformed error record: %s' % ('empty message' if not okm else why), where)
+
+
+def unwritten_token_rule(rep, M, lib):
+    """A Token that is declared without initialiser gets its fields from yylex(&tok, ...), which writes it only when it returns
+    non-zero.  Every read of a field must be dominated by a test that some yylex(&tok) call returned non-zero."""
+    P = rep.rule('C02.p', 'a token filled in by yylex is read only after a call that returned non-zero (no read of uninitialised fields)', floor=3)
+    for f in lib.functions:
+        if f.get('body') is None or not f['file'].endswith('scan.cpp') or f['tmpl'] == 'pattern':
+            continue
+        toks = [v for st in walk_stmts(f['body']) if st['k'] == 'decl' for v in st['vars']
+                if (v.get('cty') or '').replace('const ', '') in ('Theo::Token', 'Token') and (v.get('init') is None or (strip_casts(v['init']).get('k') == 'construct' and not strip_casts(v['init']).get('args')))]
+        if not toks:
+            continue
+        g = M.cfg(f)
+        for tv in toks:
+            writes = [ev for ev in g.calls() if is_call(ev.e, 'yylex') and ev.e.get('args') and any(
+                x.get('k') == 'un' and x.get('op') == '&' and strip_casts(x['e']).get('d') == tv['d'] for x in walk_expr(ev.e['args'][0]))]
+            if not writes:
+                continue
+            # result variables of those calls
+            def result_var(wev):
+                for d, ds in M.defs(f).items():
+                    for dd in ds:
+                        if dd[1] is not None and any(x is wev.e for x in walk_expr(dd[1])):
+                            return d
+                return None
+
+            def nearest_def_is(cn, var_d, wev):
+                """the definition of var_d that reaches the condition node cn last is the result of wev"""
+                cands = []
+                for ev in g.events:
+                    e = ev.e
+                    if ev.node.id not in g.dom[cn.id] and ev.node is not cn:
+                        continue
+                    if e.get('k') == 'assign' and strip_casts(e['l']).get('d') == var_d:
+                        cands.append((ev, e['r']))
+                for n in g.nodes:
+                    if n.kind == 'stmt' and isinstance(n.label, tuple) and n.label[0] == 'decl' and n.label[1] == var_d and n.id in g.dom[cn.id] and n.exprs:
+                        cands.append((n.events[-1] if n.events else None, n.exprs[0]))
+                cands = [c for c in cands if c[0] is not None]
+                if not cands:
+                    return False
+                last = cands[0]
+                for c in cands[1:]:
+                    if g.dominates(last[0], c[0]) or last[0].node.id in g.dom[c[0].node.id]:
+                        last = c
+                return any(x is wev.e for x in walk_expr(last[1]))
+            for ev in g.events:
+                e = ev.e
+                if not (e.get('k') == 'member' and strip_casts(e['base']).get('k') == 'ref' and strip_casts(e['base']).get('d') == tv['d']):
+                    continue
+                inst = '%s: %s' % (f['q'].split('::')[-1], show(e))
+                ok = False
+                for cond, label, cn in g.guards_of(ev):
+                    if not isinstance(label, bool) or cn.id < 0 and False:
+                        continue
+                    for wev in writes:
+                        rv = result_var(wev)
+
+                        def nonzero(z, rv=rv, wev=wev):
+                            # "<result> != 0" / "<result>" : true means the call wrote the token
+                            z0 = strip_casts(z)
+                            if z0.get('k') == 'ref' and z0.get('d') == rv:
+                                return True
+                            return False
+
+                        def is_zero_test(z, rv=rv):
+                            return z.get('k') == 'bin' and z['op'] == '==' and ((strip_casts(z['l']).get('d') == rv and strip_casts(z['r']).get('v') == 0) or
+                                                                                (strip_casts(z['r']).get('d') == rv and strip_casts(z['l']).get('v') == 0))
+
+                        def is_nonzero_test(z, rv=rv):
+                            return (z.get('k') == 'bin' and z['op'] == '!=' and ((strip_casts(z['l']).get('d') == rv and strip_casts(z['r']).get('v') == 0) or
+                                                                                 (strip_casts(z['r']).get('d') == rv and strip_casts(z['l']).get('v') == 0))) or \
+                                (z.get('k') == 'ref' and z.get('d') == rv)
+                        from .genrules import guard_implies
+                        implied = rv is not None and (guard_implies(cond, label, is_zero_test, False) or guard_implies(cond, label, is_nonzero_test, True))
+                        if implied and (cn.id < 0 or nearest_def_is(cn, rv, wev) or cn.id < 0):
+                            # short-circuit guards (cn.id < 0) belong to the statement of the read: the nearest definition is checked at its node
+                            if cn.id < 0 and not nearest_def_is(ev.node, rv, wev):
+                                continue
+                            ok = True
+                P.check(ok, inst, 'dominated by "yylex(&%s, ...) returned non-zero"' % tv['name'],
+                        '%s is read although no call of yylex(&%s, ...) is known to have written it on this path (yylex leaves the token untouched at end of file, and %s is '
+                        'declared without initialiser): an uninitialised read' % (show(e), tv['name'], tv['name']), '%s:%d' % (rel(lib, f['file']), e['loc'][0]))
 
 
 def recursion_depth_rule(rep):
